@@ -146,6 +146,30 @@ Theorem C10_ms_print_parse :
 Proof. exact print_parse. Qed.
 Print Assumptions C10_ms_print_parse.
 
+(* ms_rt, parsing side: whatever from_tree accepts (any tree: any spelling, any wrapper prefix) is
+   an AST that its own printed form parses back to, and printing that again gives the same tree:
+   one parse reaches a fixed point of print/parse.  (Uses [parse_valid]: every AST the parser
+   returns satisfies [ms_text_ok].) *)
+Theorem C10_ms_print_fixpoint :
+  forall (print_key : key -> tbytes) (parse_key : tbytes -> option key)
+         (print_hash : hkind -> tbytes -> tbytes) (parse_hash : hkind -> tbytes -> option tbytes)
+         (chk : ms -> bool),
+  (forall k, parse_key (print_key k) = Some k) ->
+  (forall h b, parse_hash h (print_hash h b) = Some b) ->
+  forall t m, from_tree parse_key parse_hash chk t = Ok m ->
+  from_tree parse_key parse_hash chk (to_tree print_key print_hash m) = Ok m /\
+  (forall m', from_tree parse_key parse_hash chk (to_tree print_key print_hash m) = Ok m' ->
+              to_tree print_key print_hash m' = to_tree print_key print_hash m).
+Proof. exact print_fixpoint. Qed.
+Print Assumptions C10_ms_print_fixpoint.
+
+(* the parser's own checks: every AST it returns is within the printable range *)
+Theorem C10_ms_parse_valid :
+  forall (parse_key : tbytes -> option key) (parse_hash : hkind -> tbytes -> option tbytes) (chk : ms -> bool)
+         t m, from_tree parse_key parse_hash chk t = Ok m -> ms_text_ok chk m = true.
+Proof. exact parse_valid. Qed.
+Print Assumptions C10_ms_parse_valid.
+
 (* non-vacuity: an instance of the parameters that satisfies the hypotheses (keys printed in
    decimal, hashes verbatim, from_ast = the type check), and a typed miniscript with sugar,
    wrappers, a threshold, a multi and both lock kinds:
